@@ -114,6 +114,7 @@ Inductive stmt :=
 | SResultOnly (d : dest)                   (* a wrapper without a call still prints the result prefix *)
 | SForget
 | SDropClone (ctxlow : string)
+| SDropCloneCpp                            (* mem_drop(std::move(___ctx))   *)
 | SDropInst (contlow : string)
 | SDropCtx (ctxlow : string)
 | SReturn.
@@ -137,7 +138,8 @@ Definition access (t : this_expr) : string :=
   | ThisCast c ty => "((" ++ (if c then "const " else "") ++ ty ++ " *)self)->"
   end.
 
-Definition mk_wrapper (f : func) (container vtbl prefix : string) (cpp cast_self : bool)
+(* [rel] is read from the source by the translator: does the C++ generator release the context clone of a consuming call? *)
+Definition mk_wrapper (rel : bool) (f : func) (container vtbl prefix : string) (cpp cast_self : bool)
            (this_ty : string) (vtbls : list string)
            (cinfo_ty cinfo_pre : string) (cinfo_drop : bool)
            (ctx_ty ctx_pre : string) (ctx_drop : bool) : wrapper :=
@@ -154,7 +156,8 @@ Definition mk_wrapper (f : func) (container vtbl prefix : string) (cpp cast_self
                else [] in
   let call := if f_calls f then [SCall d vtbl (f_name f) (negb (f_moves f)) (map snd (f_args f))] else [SResultOnly d] in
   let post1 := if f_moves f then
-                 (if cpp then [SForget] else if ctx_drop && f_calls f then [SDropClone (lower ctx_pre)] else [])
+                 (if cpp then SForget :: (if rel then [SDropCloneCpp] else [])
+                  else if ctx_drop && f_calls f then [SDropClone (lower ctx_pre)] else [])
                else [] in
   let post2 := if f_moves f && negb (f_calls f) && negb cpp then
                  ((if cinfo_drop then [SDropInst (lower cinfo_pre)] else []) ++ (if ctx_drop then [SDropCtx (lower ctx_pre)] else []))%list
@@ -185,6 +188,7 @@ Definition render_stmt (container : string) (this : this_expr) (s : stmt) : stri
   | SResultOnly d => render_dest d this
   | SForget => "mem_forget(" ++ access this ++ "container);"
   | SDropClone low => "ctx_" ++ low ++ "_drop(&___ctx);"
+  | SDropCloneCpp => "mem_drop(std::move(___ctx));"
   | SDropInst low => "cont_" ++ low ++ "_drop(&" ++ access this ++ "container.instance);"
   | SDropCtx low => "ctx_" ++ low ++ "_drop(&" ++ access this ++ "container.context);"
   | SReturn => "return __ret;"
@@ -221,6 +225,7 @@ Definition ev_of (s : stmt) : list ev :=
   | SResultOnly _ => []
   | SForget => [EvForget]
   | SDropClone _ => [EvDropClone]
+  | SDropCloneCpp => [EvDropClone]
   | SDropInst _ => [EvDropInst]
   | SDropCtx _ => [EvDropCtx]
   | SReturn => []
@@ -318,7 +323,7 @@ Definition wrapper_of (clash : bool) (cfg : config) (es : list entry) (vtbls : e
   let '(cpre, cdrop) := inner_info (e_inner e) in
   let '(xpre, xdrop) := ctx_info (e_ctx e) in
   let '(p, cast) := c_prefix_of clash cfg es e f in
-  mk_wrapper f "container" (vtbl_field e) p false cast (this_ty e) (vtbls e) (container_ty e) cpre cdrop (e_ctx e) xpre xdrop.
+  mk_wrapper false f "container" (vtbl_field e) p false cast (this_ty e) (vtbls e) (container_ty e) cpre cdrop (e_ctx e) xpre xdrop.
 
 Definition key_eqb (a b : string * string) : bool := String.eqb (fst a) (fst b) && String.eqb (snd a) (snd b).
 
@@ -376,8 +381,8 @@ Fixpoint find_wrapper (name : string) (l : list emitted) (k : nat) : option (nat
 
 (* ------------------------------------------------------------------------------------------------ header level, C++ mode *)
 (* Vtable::create_wrappers: member functions of a group class / of a CGlueTraitObj specialisation *)
-Definition cpp_wrapper (f : func) (vtbl prefix this_ty : string) (vtbls : list string) : wrapper :=
-  mk_wrapper f "container" vtbl prefix true false this_ty vtbls "CGlueC" "" false "" "" false.
+Definition cpp_wrapper (rel : bool) (f : func) (vtbl prefix this_ty : string) (vtbls : list string) : wrapper :=
+  mk_wrapper rel f "container" vtbl prefix true false this_ty vtbls "CGlueC" "" false "" "" false.
 
 Record cgroup := mkcgroup { g_name : string; g_traits : list string }.   (* vtables in field order *)
 Record cvtbl := mkcvtbl { v_name : string; v_funcs : list func }.
@@ -390,19 +395,19 @@ Definition dup_in_group (vs : list cvtbl) (g : cgroup) (tr fname : string) : boo
                     match find_vtbl vs t with Some v => existsb (fun f => String.eqb (f_name f) fname) (v_funcs v) | None => false end)
           (g_traits g).
 
-Definition gen_cpp_group (vs : list cvtbl) (g : cgroup) : list (string * nat * wrapper) :=
+Definition gen_cpp_group (rel : bool) (vs : list cvtbl) (g : cgroup) : list (string * nat * wrapper) :=
   let fields := map (fun t => "vtbl_" ++ lower t) (g_traits g) in
   flat_map (fun t => match find_vtbl vs t with
                      | None => []
                      | Some v => map (fun fi : nat * func =>
                                    let f := snd fi in
-                                   (t, fst fi, cpp_wrapper f ("vtbl_" ++ lower t)
+                                   (t, fst fi, cpp_wrapper rel f ("vtbl_" ++ lower t)
                                                   (if dup_in_group vs g t (f_name f) then lower t ++ "_" else "") (g_name g) fields))
                                  (combine (seq 0 (List.length (v_funcs v))) (v_funcs v))
                      end) (g_traits g).
 
-Definition gen_cpp_obj (v : cvtbl) : list (string * nat * wrapper) :=
-  map (fun fi : nat * func => (v_name v, fst fi, cpp_wrapper (snd fi) "vtbl" "" "CGlueTraitObj" ["vtbl"]))
+Definition gen_cpp_obj (rel : bool) (v : cvtbl) : list (string * nat * wrapper) :=
+  map (fun fi : nat * func => (v_name v, fst fi, cpp_wrapper rel (snd fi) "vtbl" "" "CGlueTraitObj" ["vtbl"]))
       (combine (seq 0 (List.length (v_funcs v))) (v_funcs v)).
 
 (* ------------------------------------------------------------------------------------------------ main.rs: the argument split *)
@@ -527,3 +532,56 @@ Definition run_cli (params : list Z) (rows : list (list Z)) : list (list Z) :=
   let '(c, n, pass, out) := split_cli (map str_of_row rows) in
   ([[bz (match c with Some _ => true | None => false end)]; row_of_str (match c with Some x => x | None => "" end); [bz n];
    [bz (match out with Some _ => true | None => false end)]; row_of_str (match out with Some x => x | None => "" end)] ++ map row_of_str pass)%list.
+
+(* model 117, C++ mode.  params: release mode.  rows: [nv] ; per vtable: [nf] ; name ; functions (as for model 17) ... ; [ng] ; per group: [nt] ; name ; trait names.
+   output: per member function  [1; kind (0 group / 1 object); group or vtable index; vtable index; function index] ; name ; text ; [3; trace] ; [4; return] *)
+Fixpoint take_vtbls (n : nat) (rows : list (list Z)) : list cvtbl * list (list Z) :=
+  match n with
+  | 0 => ([], rows)
+  | S n =>
+      match rows with
+      | [nf] :: name :: rest =>
+          let '(fs, rest') := take_funcs (zn nf) rest in
+          let '(vs, rest'') := take_vtbls n rest' in
+          (mkcvtbl (str_of_row name) fs :: vs, rest'')
+      | _ => ([], [])
+      end
+  end.
+
+Fixpoint take_groups (n : nat) (rows : list (list Z)) : list cgroup :=
+  match n with
+  | 0 => []
+  | S n =>
+      match rows with
+      | [nt] :: name :: rest => mkcgroup (str_of_row name) (map str_of_row (firstn (zn nt) rest)) :: take_groups n (skipn (zn nt) rest)
+      | _ => []
+      end
+  end.
+
+Fixpoint index_of (vs : list cvtbl) (n : string) (k : nat) : nat :=
+  match vs with [] => k | v :: r => if String.eqb (v_name v) n then k else index_of r n (S k) end.
+
+Definition wrapper_rows (hdr : list Z) (w : wrapper) : list (list Z) :=
+  [hdr; row_of_str (w_name w); row_of_str (render "container" w); (3 :: flat_map ev_row (trace w))%Z; (4 :: ret_code (returns w))%Z].
+
+Definition run_bindgen_cpp (params : list Z) (rows : list (list Z)) : list (list Z) :=
+  match rows with
+  | [nv] :: rest =>
+      let '(vs, rest') := take_vtbls (zn nv) rest in
+      match rest' with
+      | [ng] :: rest'' =>
+          let gs := take_groups (zn ng) rest'' in
+          let rel := match params with r :: _ => zb r | [] => false end in
+          List.app
+            (flat_map (fun ig : nat * cgroup => let '(gi, g) := ig in
+               flat_map (fun x : string * nat * wrapper => let '(t, fi, w) := x in
+                           wrapper_rows [1; 0; nz gi; nz (index_of vs t 0); nz fi]%Z w) (gen_cpp_group rel vs g))
+               (combine (seq 0 (List.length gs)) gs))
+            (flat_map (fun iv : nat * cvtbl => let '(vi, v) := iv in
+               flat_map (fun x : string * nat * wrapper => let '(_, fi, w) := x in
+                           wrapper_rows [1; 1; nz vi; nz vi; nz fi]%Z w) (gen_cpp_obj rel v))
+               (combine (seq 0 (List.length vs)) vs))
+      | _ => [[-2]%Z]
+      end
+  | _ => [[-2]%Z]
+  end.
